@@ -159,13 +159,16 @@ Definition step (c : cfg) (s : st) (o : op) : st * list Z :=
         else (mkSt db (next_id s + 1) (provs s) (conss s) (now s) (last_gc s), [next_id s])
       else (s, [-1])
   | Update aid id typ tok =>
-      (* no registration check (known finding KF-C12-2) *)
-      if has_id id (store s) then
-        if valid_type typ && existsb (fun e => r_typ (snd e) =? typ) (store s)
+      (* no registration check (known finding KF-C12-2); the new message must carry the type
+         of the stored one (exists(<type name>, id) looks inside the addressed container) *)
+      match lookup id (store s) with
+      | Some r =>
+        if valid_type typ && (r_typ r =? typ)
         then (with_store s (map (fun e => if fst e =? id then (fst e, set_content (snd e) typ tok) else e)
                                 (store s)), [0])
         else (s, [2])
-      else (s, [1])
+      | None => (s, [1])
+      end
   | Delete aid id =>
       if has_id id (store s)
       then (with_store s (filter (fun e => negb (fst e =? id)) (store s)), [0])
@@ -252,7 +255,7 @@ Definition a_step (c : cfg) (a : ast) (o : op) : ast * list Z :=
   | Update aid id typ tok =>
       match a_map a id with
       | Some r =>
-          if valid_type typ && existsb (fun e => r_typ (snd e) =? typ) (aenum (a_map a) (a_next a))
+          if valid_type typ && (r_typ r =? typ)
           then (a_with_map a (upd (a_map a) id (Some (set_content r typ tok))), [0])
           else (a, [2])
       | None => (a, [1])
